@@ -2448,8 +2448,10 @@ class Parameters:
         cls = self_.cls
         type.__setattr__(cls, param_name, param_obj)
         ParameterizedMetaclass._initialize_parameter(cls, param_name, param_obj)
-        # delete cached params()
-        cls._param__private.params.clear()
+        # delete cached params() of the class and of its subclasses,
+        # whose caches include the Parameters they inherit
+        for subcls in descendents(cls):
+            subcls._param__private.params = {}
 
     # PARAM3_DEPRECATION
     @_deprecated(extra_msg="Use instead `.param.add_parameter`", warning_cat=_ParamFutureWarning)
@@ -4445,6 +4447,11 @@ class ParameterizedMetaclass(type):
                 parameter = copy.copy(parameter)
                 parameter.owner = mcs
                 type.__setattr__(mcs,attribute_name,parameter)
+                # the inherited Parameter object is no longer the one
+                # governing this class and its subclasses: drop their
+                # cached params()
+                for subcls in descendents(mcs):
+                    subcls._param__private.params = {}
             mcs.__dict__[attribute_name].__set__(None,value)
 
         else:
